@@ -444,3 +444,32 @@ Theorem shelley_law_false_of_codec :
   bech32_encode [88] [0] = Ok s /\ b32_dec_c [88] s = None.
 Proof. exact (conj (proj1 LinkBech32.bech32_rt_fails_uppercase_hrp) LinkAdaShelley.b32_dec_c_uppercase). Qed.
 Print Assumptions shelley_law_false_of_codec.
+
+(* ---- LINKED: Byron addresses with the CRC-32 and cbor2 oracles replaced by concrete functions
+   (Lemmas/LinkAdaByron.v): [crc32] := Model/MnemText.crc32 (binascii.crc32 as arithmetic); the three parse oracles :=
+   the CBOR readers of Lemmas/CborEnc.v (RFC 8949 heads, exactly one item of the address shape, nothing after it, as the
+   repaired library demands).  The parse laws assumed of cbor2 in [byron_addr_dec_enc] are theorems about these readers;
+   what remains abstract are the hashes. ---- *)
+From BU Require Model.MnemText Lemmas.LinkAdaByron Lemmas.AddrAcceptAda.
+Notation byron_decode_c := LinkAdaByron.byron_decode_c.
+Notation byron_encode_key_c := LinkAdaByron.byron_encode_key_c.
+
+Theorem crc32_fits_32_bits : forall bs, bytes_ok bs -> MnemText.crc32 bs < 2 ^ 32.
+Proof. exact LinkAdaByron.crc32_lt. Qed.
+Print Assumptions crc32_fits_32_bits.
+
+Theorem byron_addr_dec_enc_concrete : forall (sha3_256 blake2b_224 : list N -> list N),
+  (forall x, length (blake2b_224 x) = 28%nat) -> (forall x, bytes_ok (blake2b_224 x)) ->
+  forall pub cc enc, Lemmas.AddrAdaByron.enc_ok enc ->
+  byron_decode_c (byron_encode_key_c sha3_256 blake2b_224 pub cc enc) =
+    Ok (AddrAdaByron.root_hash sha3_256 blake2b_224 ada_byron_type_pubkey (pub ++ cc) enc ++ AddrAcceptAda.enc_tail enc).
+Proof. exact LinkAdaByron.byron_decode_encode_c. Qed.
+Print Assumptions byron_addr_dec_enc_concrete.
+
+(* on the real CRC-32: the encoder's address s1; s2 = the same CBOR with the CRC in an 8-byte head, accepted with the
+   same result (RFC 8949 allows it; cbor2 too); s3 = s1's bytes followed by 00, refused *)
+Theorem byron_concrete_heads_and_trailing : exists s1 s2 s3 out,
+  s2 <> s1 /\ byron_decode_c s1 = Ok out /\ byron_decode_c s2 = Ok out /\ byron_decode_c s3 = Err ValueError /\
+  AddrAdaByron.b58dec s3 = rmap (fun b => b ++ [0]) (AddrAdaByron.b58dec s1).
+Proof. exact LinkAdaByron.byron_c_trailing_rejected_nonminimal_accepted. Qed.
+Print Assumptions byron_concrete_heads_and_trailing.
